@@ -24,18 +24,29 @@ H = [
 ]
 def props():
     return [c['property_id'] for c in json.load(open(os.path.join(V, 'MANIFEST.json')))['checks']]
+# plus every diff in selftest/harmless/ (behaviour-preserving maintenance changes written by independent
+# sub-agents that were given the property statements and asked to preserve all of them)
+for f in sorted(os.listdir(os.path.join(V, 'selftest', 'harmless'))):
+    if f.endswith('.diff'):
+        H.append((f[:-5], None, None, os.path.join(V, 'selftest', 'harmless', f)))
 def run_one(h):
     name, rel, old, new = h
-    src = open(os.path.join('/repo', rel)).read()
-    if src.count(old) != 1:
-        return name, 'SKIP', 'pattern occurs %d times' % src.count(old)
+    if rel is not None:
+        src = open(os.path.join('/repo', rel)).read()
+        if src.count(old) != 1:
+            return name, 'SKIP', 'pattern occurs %d times' % src.count(old)
     d = tempfile.mkdtemp(prefix='verif-harmless.', dir='/var/tmp')
     try:
         for f in subprocess.run(['git', '-C', '/repo', 'ls-files'], capture_output=True, text=True).stdout.split():
             if f.startswith('caddy/') or f.startswith('third_party/'):
                 continue
             dst = os.path.join(d, 'repo', f); os.makedirs(os.path.dirname(dst), exist_ok=True); shutil.copy(os.path.join('/repo', f), dst)
-        open(os.path.join(d, 'repo', rel), 'w').write(src.replace(old, new))
+        if rel is not None:
+            open(os.path.join(d, 'repo', rel), 'w').write(src.replace(old, new))
+        else:
+            a = subprocess.run(['git', 'apply', new], cwd=os.path.join(d, 'repo'), capture_output=True, text=True)
+            if a.returncode != 0:
+                return name, 'NOAPPLY', a.stderr[-200:]
         b = subprocess.run(['go', 'build', './...'], cwd=os.path.join(d, 'repo'), env=ENV, capture_output=True, text=True)
         if b.returncode != 0:
             return name, 'NOBUILD', (b.stdout + b.stderr)[-300:]
@@ -47,8 +58,8 @@ def run_one(h):
                                env=dict(ENV, VERIF_REPO=os.path.join(d, 'repo'), VERIF_OUT=os.path.join(d, 'out'), GOVC_NO_REPLAY='1'))
             if r.returncode == 1:
                 bad.append(p + ':' + ' '.join(l.split('obligation=')[1].split()[0] for l in r.stdout.splitlines() if l.startswith('VIOLATION'))[:200])
-            elif r.returncode == 2:
-                und.append(p + ':' + [l for l in r.stdout.splitlines() if l.startswith('UNDECIDED')][0][:160])
+            elif r.returncode != 0:
+                und.append(p + ':' + ([l for l in r.stdout.splitlines() if l.startswith('UNDECIDED')] or [(r.stdout + r.stderr).strip().splitlines()[-1] if (r.stdout + r.stderr).strip() else 'exit 2'])[0][:200])
         if bad:
             return name, 'FALSE-ALARM', tests + ' ' + ' | '.join(bad)
         if und:
@@ -59,7 +70,7 @@ def run_one(h):
 def main():
     args = sys.argv[1:]
     hs = [h for h in H if not args or any(a in h[0] for a in args)]
-    with concurrent.futures.ThreadPoolExecutor(max_workers=4) as ex:
+    with concurrent.futures.ThreadPoolExecutor(max_workers=5) as ex:
         res = list(ex.map(run_one, hs))
     for r in res:
         print('%-36s %-12s %s' % r)
